@@ -3,6 +3,11 @@ package main
 import (
 	"encoding/json"
 	"fmt"
+	"github.com/ipld/go-ipld-prime/node/bindnode"
+	ipldschema "github.com/ipld/go-ipld-prime/schema"
+	"github.com/storacha/go-ucanto/core/result/failure"
+	"github.com/storacha/go-ucanto/core/schema/options"
+	"github.com/storacha/go-ucanto/server/transaction"
 	"github.com/storacha/go-ucanto/transport"
 	thttp "github.com/storacha/go-ucanto/transport/http"
 	"io"
@@ -52,7 +57,9 @@ func genC08(cfg Config, emit Emit) error {
 		n = 30000
 	}
 	o := genOpts{maxDepth: 4, sessions: true, sessionPct: 25, caveats: true, caveatPct: 30,
-		kinds: []string{"none", "none", "wrongkey", "tamper", "aud", "resource", "ability", "expired", "revoke", "policy", "decoys", "permute", "missing", "nonowner", "case", "nearmiss", "didurl"}}
+		kinds: []string{"none", "none", "wrongkey", "tamper", "aud", "resource", "ability", "expired", "revoke", "policy", "decoys", "permute", "missing", "nonowner", "case", "nearmiss", "didurl", "urlnear"}}
+	// the handler is handed the caveats as the capability's reader (here a union of readers) reads them
+	emit("reqcraft", []string{"or", "-", "-"}, "crafted/or", true)
 	genWorlds(cfg, n, o, func(w *AWorld, class string) {
 		r := cfg.Rng
 		res := []string{"ok", "okfx", "err", "okjoin"}
@@ -160,6 +167,49 @@ func (cw *CWorld) methodOptions(log *runLog, calls *[]handlerCall, mu *sync.Mute
 				return okOut{1}, nil, nil
 			})))
 	}
+	// a method whose caveats are read by a union of readers (schema.Or): a strict one first, then a lenient
+	// legacy one that accepts anything and reports {f9: 9}; nested in another union whose first member
+	// always fails. The handler records what it was handed.
+	strict := nbReader{}
+	lenient := schema.Mapped[any, NbMap, NbMap](anyReader{}, func(NbMap) (NbMap, failure.Failure) {
+		return NbMap{F: map[string]any{"f9": int64(9)}}, nil
+	})
+	never := schema.Or[any, NbMap](rejectReader{}, rejectReader{})
+	orRd := schema.Or[any, NbMap](never, schema.Or[any, NbMap](strict, lenient))
+	opts = append(opts, server.WithServiceMethod("lib/or", server.Provide(validator.NewCapability[NbMap]("lib/or", schema.DIDString(), orRd, nil),
+		func(cap ucan.Capability[NbMap], inv invocation.Invocation, ctx server.InvocationContext) (okOut, fx.Effects, error) {
+			mu.Lock()
+			*calls = append(*calls, handlerCall{-2, cap.Can(), cap.With(), cw.nbToPairs(cap.Nb())})
+			mu.Unlock()
+			return okOut{3}, nil, nil
+		})))
+	// a method whose resource is read by the library's URI reader restricted to one scheme
+	opts = append(opts, server.WithServiceMethod("lib/uri", server.Provide(validator.NewCapability[NbMap]("lib/uri", uriWith{schema.URI(schema.WithProtocol("https:"))}, nbReader{}, nil),
+		func(cap ucan.Capability[NbMap], inv invocation.Invocation, ctx server.InvocationContext) (okOut, fx.Effects, error) {
+			return okOut{4}, nil, nil
+		})))
+	// a method whose caveats bind a DID-typed field through a bindnode converter option
+	if ts, err := ipldLoad([]byte("type ConvCaveats struct {\n consumer optional DID\n}\ntype DID string")); err == nil {
+		convType = ts.TypeByName("ConvCaveats")
+		capb := validator.NewCapability[convCaveats]("lib/conv", schema.DIDString(), schema.Struct[convCaveats](convType, nil, convOpts...), nil)
+		opts = append(opts, server.WithServiceMethod("lib/conv", server.Provide(capb,
+			func(cap ucan.Capability[convCaveats], inv invocation.Invocation, ctx server.InvocationContext) (okOut, fx.Effects, error) {
+				return okOut{5}, nil, nil
+			})))
+	}
+	// a method that checks the invocation's time bounds and signature itself first and reports the
+	// validator's own typed error as the receipt's error
+	precheck := validator.NewCapability[NbMap]("lib/precheck", schema.DIDString(), nbReader{}, nil)
+	opts = append(opts, server.WithServiceMethod("lib/precheck", func(inv invocation.Invocation, ctx server.InvocationContext) (transaction.Transaction[ipld.Builder, ipld.Builder], error) {
+		vctx := validator.NewValidationContext(ctx.ID().Verifier(), precheck, ctx.CanIssue, ctx.ValidateAuthorization, ctx.ResolveProof, ctx.ParsePrincipal, ctx.ResolveDIDKey)
+		if _, verr := validator.Validate(inv, nil, vctx); verr != nil {
+			return transaction.NewTransaction(result.NewFailure(verr)), nil
+		}
+		if _, aerr := validator.Access(inv, vctx); aerr != nil {
+			return transaction.NewTransaction(result.NewFailure(aerr)), nil
+		}
+		return transaction.NewTransaction(result.Ok[ipld.Builder, ipld.Builder](okOut{6})), nil
+	}))
 	// and one whose caveats are read by the library's struct reader
 	if ts, err := ipldLoad([]byte("type LibCaveats struct {\n size optional Int\n label optional String\n}")); err == nil {
 		capb := validator.NewCapability[libCaveats]("lib/struct", schema.DIDString(), schema.Struct[libCaveats](ts.TypeByName("LibCaveats"), nil), nil)
@@ -403,4 +453,31 @@ func httpFront(srv server.ServerView) (transport.Channel, func()) {
 	}))
 	u, _ := url.Parse(ts.URL)
 	return thttp.NewHTTPChannel(u), ts.Close
+}
+
+// anyReader accepts whatever it is given (a legacy, lenient caveat reader)
+type anyReader struct{}
+
+func (anyReader) Read(input any) (NbMap, failure.Failure) { return NbMap{F: map[string]any{}}, nil }
+
+// rejectReader accepts nothing
+type rejectReader struct{}
+
+func (rejectReader) Read(input any) (NbMap, failure.Failure) {
+	return NbMap{}, schema.NewSchemaError("never")
+}
+
+// convCaveats: typed caveats whose `consumer` string is bound to a did.DID by a converter option
+type convCaveats struct {
+	Consumer *did.DID
+}
+
+var convType ipldschema.Type
+
+var convOpts = []bindnode.Option{
+	options.NamedStringConverter("DID", did.Parse, func(d did.DID) (string, error) { return d.String(), nil }),
+}
+
+func (c convCaveats) ToIPLD() (ipld.Node, error) {
+	return ipld.WrapWithRecovery(&c, convType, convOpts...)
 }
